@@ -47,6 +47,11 @@ type c10WBT struct {
 	}
 	R json.RawMessage
 	B []byte
+	// the object is larger than 512 bytes (it carries a type header in the heap) and ends with a
+	// fixed-size array of pointerful elements that both documents fill completely: whatever
+	// the decoder clears or copies "after the last element" lies outside the object
+	Pad [62]int64
+	Arr [2]string
 }
 
 type c10WBNode struct {
@@ -67,12 +72,12 @@ const (
 	wbB1 = "first-B-built-by-the-decoder-0123456789abcdefghi" // decoded from base64
 )
 
-var c10WBJSON1 = `{"S":"` + wbS1 + `","N":` + wbN1 + `,"I":"` + wbI1 + `","P":"` + wbP1 + `","Q":"\"` + wbQ1 + `\"","A":["` + wbA1 + `","` + wbA1 + `"],"E":{"X":"` + wbX1 + `","Y":{"Z":"` + wbZ1 + `"}},"R":` + wbR1 + `,"B":"` + base64.StdEncoding.EncodeToString([]byte(wbB1)) + `"}`
+var c10WBJSON1 = `{"S":"` + wbS1 + `","N":` + wbN1 + `,"I":"` + wbI1 + `","P":"` + wbP1 + `","Q":"\"` + wbQ1 + `\"","A":["` + wbA1 + `","` + wbA1 + `"],"E":{"X":"` + wbX1 + `","Y":{"Z":"` + wbZ1 + `"}},"R":` + wbR1 + `,"B":"` + base64.StdEncoding.EncodeToString([]byte(wbB1)) + `","Arr":["first-arr-0","first-arr-1"]}`
 
 var c10WBJSON2 = []string{
-	`{"S":"second","N":2,"I":"second","P":"second","Q":"\"second\"","A":["second","second"],"E":{"X":"second","Y":{"Z":"second"}},"R":[2],"B":""}`,
-	`{"S":"","N":0,"I":null,"P":null,"Q":"\"\"","A":["x"],"E":{"X":"","Y":null},"R":null,"B":null}`,
-	`{"S":"second","N":2.5,"I":{"k":"v"},"P":"p","Q":"\"q\"","A":["a","b","c","d","e"],"E":{"X":"x","Y":{"Z":"z"}},"R":{"r":2},"B":"c2Vjb25kLXZhbHVlLW9mLUItbG9uZ2VyLXRoYW4tdGhlLWZpcnN0LW9uZS0wMTIzNDU2Nzg5YWJjZGVmZ2hpamtsbW5vcA=="}`,
+	`{"S":"second","N":2,"I":"second","P":"second","Q":"\"second\"","A":["second","second"],"E":{"X":"second","Y":{"Z":"second"}},"R":[2],"B":"","Arr":["x","y"]}`,
+	`{"S":"","N":0,"I":null,"P":null,"Q":"\"\"","A":["x"],"E":{"X":"","Y":null},"R":null,"B":null,"Arr":["x","y","z"]}`,
+	`{"S":"second","N":2.5,"I":{"k":"v"},"P":"p","Q":"\"q\"","A":["a","b","c","d","e"],"E":{"X":"x","Y":{"Z":"z"}},"R":{"r":2},"B":"c2Vjb25kLXZhbHVlLW9mLUItbG9uZ2VyLXRoYW4tdGhlLWZpcnN0LW9uZS0wMTIzNDU2Nzg5YWJjZGVmZ2hpamtsbW5vcA==","Arr":["only-one"]}`,
 }
 
 var c10WBCfg = sonic.Config{CopyString: true}.Froze()
